@@ -17,10 +17,10 @@ package pubsub
 import (
 	"context"
 	"fmt"
+	"github.com/echovault/sugardb/verifhook"
 	"log"
 	"net"
 	"slices"
-	"sync"
 
 	"github.com/gobwas/glob"
 	"github.com/tidwall/resp"
@@ -28,14 +28,16 @@ import (
 
 type PubSub struct {
 	channels      []*Channel
-	channelsRWMut sync.RWMutex
+	channelsRWMut verifhook.RWMutex
 }
 
 func NewPubSub() *PubSub {
-	return &PubSub{
+	ps := &PubSub{
 		channels:      []*Channel{},
-		channelsRWMut: sync.RWMutex{},
+		channelsRWMut: verifhook.RWMutex{},
 	}
+	verifhook.NameLock(&ps.channelsRWMut, "pubsub.channels")
+	return ps
 }
 
 func (ps *PubSub) Subscribe(_ context.Context, conn *net.Conn, channels []string, withPattern bool) {
